@@ -163,6 +163,7 @@ func (r *Router) StopRollout(name string) error {
 
 func (r *Router) RemoveService(name string) error {
 	defer r.saveStateSnapshot()
+	verifYield("remove_start", r)
 
 	return r.withWriteLock(func() error {
 		service := r.services.Get(name)
@@ -271,6 +272,7 @@ func (r *Router) deployTargetsIntoService(service *Service, targetSlot TargetSlo
 
 	lb := NewLoadBalancer(tl)
 	verifEmit("dep_new_lb", service, lb, int(targetSlot))
+	verifYield("dep_started", service, lb)
 	err = lb.WaitUntilHealthy(deployTimeout)
 	if err != nil {
 		lb.Dispose()
